@@ -284,6 +284,11 @@ def merge(c, a: V, b: V) -> V:
         if ka == KFn and a.meta is not b.meta:
             meta = None
         return V(ka, z3.If(c, a.term, b.term), meta)
+    if isinstance(ka, KList) and isinstance(kb, KList):
+        if a.meta == 'empty':
+            return merge(c, V(kb, z3.Empty(kb.sort())), b)
+        if b.meta == 'empty':
+            return merge(c, a, V(ka, z3.Empty(ka.sort())))
     # None vs Ref
     if ka == KNone and isinstance(kb, KRef):
         return V(kb, z3.If(c, z3.IntVal(0), b.term))
